@@ -2402,3 +2402,6 @@ def replay(ctx, data):
 
 def canon_text(s):
     return s
+
+
+DRIVER_OPS = ["py"]   # per-area driver executable(s) this check talks to (built before any worker is forked)
